@@ -168,6 +168,13 @@ func (wr *Writer) tightStruct(rv reflect.Value, si *sinfo) {
 	}
 	var stat appendStatus
 	for _, fi := range fields {
+		if 1 < len(fi.index) {
+			// A promoted field. If an embedded pointer on the way to it is
+			// nil there is nothing to encode, as with encoding/json.
+			if _, err := rv.FieldByIndexErr(fi.index); err != nil {
+				continue
+			}
+		}
 		if 0 < addr {
 			wr.buf, v, stat = fi.Append(fi, wr.buf, rv, addr, !wr.HTMLUnsafe)
 		} else {
